@@ -109,6 +109,13 @@ def one_case(ctx: Ctx, stream: str, i: int, steps: int) -> None:
         status, res = safe(f)
         ctx.count('op:' + op)
         desc = {'op': op, 'a': type(a).__name__, 'b': type(b).__name__ if b is not None else scalar_kind}
+        # arithmetic builds a NEW operator: the operands (which the caller keeps and may use again — the pool of this
+        # very case does) must still be what they were, whatever lists or containers the result shares with them
+        for nm, o, before in (('left', a, ea), ('right', b, eb if op in ('@', '+', '-') else None)):
+            if before is not None and enc.op(o) != before:
+                ctx.fail(stream, i, f'operand-modified-by-arithmetic:{op}:{nm}',
+                         f'the {nm} operand of {op} ({type(o).__name__}) no longer encodes to what it did before the '
+                         f'operation was evaluated', {**desc, 'before': sx(before)[:1500], 'after': sx(enc.op(o))[:1500]})
 
         # ---------------- oracle on the implementation ------------------------------------------
         if op in ('rmul', 'mul', 'div') and req is None:
